@@ -1,2 +1,45 @@
-(* C25 -- placeholder while the proofs are being developed *)
-From PB Require Import Base.PBytes Text.TextStrModel.
+(* C25 -- Text string literals encode arbitrary bytes losslessly.
+   Statements only; each closed by [exact] of a lemma proved in Text/*P.v. *)
+From Coq Require Import List NArith ZArith.
+From PB Require Import Base.PBytes Base.Utf8Model Text.TextStrModel Text.TextStrP.
+Import ListNotations.
+Open Scope N_scope.
+
+(* whatever text.appendString writes (either EmitASCII setting), parseString
+   reads back as exactly the original bytes and stops right after the closing
+   quote -- for EVERY byte list (invalid UTF-8, controls, quotes, ...) *)
+Theorem C25_text_string_roundtrip :
+  forall ascii bs tail, parse_string (append_string ascii bs ++ tail) = SOk (bs, tail).
+Proof. exact text_string_roundtrip. Qed.
+Print Assumptions C25_text_string_roundtrip.
+
+(* the same through text.UnmarshalString *)
+Theorem C25_unmarshal_string_roundtrip :
+  forall ascii bs, unmarshal_string (append_string ascii bs) = SOk bs.
+Proof. exact text_unmarshal_string_roundtrip. Qed.
+Print Assumptions C25_unmarshal_string_roundtrip.
+
+(* with EmitASCII every output byte is printable ASCII *)
+Theorem C25_emit_ascii_printable :
+  forall bs, Forall (fun b => 32 <= b2n b <= 126) (append_string true bs).
+Proof. exact emit_ascii_printable. Qed.
+Print Assumptions C25_emit_ascii_printable.
+
+(* the run-copying fast paths of both Go loops do not change the functions *)
+Theorem C25_append_string_fast_path :
+  forall ascii bs, append_string ascii bs = append_string_simple ascii bs.
+Proof. exact append_string_eq. Qed.
+Print Assumptions C25_append_string_fast_path.
+
+(* non-vacuity / sanity: the model computes the expected literals *)
+Example C25_ex_escape :
+  append_string true [x01; x22; xc3; xa9; xff; x27] =
+  [x22; x5c; x78; x30; x31; x5c; x22; x5c; x75; x30; x30; x65; x39; x5c; x78; x66; x66; x27; x22].
+Proof. vm_compute. reflexivity. Qed.
+Example C25_ex_c1_always_escaped :
+  append_string false [xc2; x80; xc3; xa9] = [x22; x5c; x75; x30; x30; x38; x30; xc3; xa9; x22].
+Proof. vm_compute. reflexivity. Qed.
+Example C25_ex_parse :
+  parse_string [x27; x5c; x75; x64; x38; x33; x64; x5c; x75; x64; x65; x30; x30; x5c; x31; x30; x31; x27; x20] =
+  SOk ([xf0; x9f; x98; x80; x41], [x20]).
+Proof. vm_compute. reflexivity. Qed.
